@@ -1578,7 +1578,7 @@ impl<'a, R: FileManager> FrontendCtx<'a, R> {
                 if let AddressedQualifiedType::WillBeUsedForEnumItem { enum_type, address } = ty {
                     let found = enum_type.members.iter().find(|it| match &it.id {
                         TsEnumMemberId::Ident(ident) => &ident.sym == member_name,
-                        TsEnumMemberId::Str(_) => unreachable!(),
+                        TsEnumMemberId::Str(s) => s.value.to_string_lossy() == member_name.as_str(),
                     });
                     return match found.and_then(|it| it.init.clone()) {
                         Some(init) => self.typeof_expr(&init, true, address.file.clone()),
@@ -2425,7 +2425,7 @@ impl<'a, R: FileManager> FrontendCtx<'a, R> {
                         }
                         let Some(enum_value) = from_enum.members.iter().find(|it| match &it.id {
                             TsEnumMemberId::Ident(i) => i.sym == *key,
-                            TsEnumMemberId::Str(_) => unreachable!(),
+                            TsEnumMemberId::Str(s) => s.value.to_string_lossy() == *key,
                         }) else {
                             return self.error(&anchor, DiagnosticInfoMessage::EnumMemberNotFound);
                         };
@@ -2624,7 +2624,7 @@ impl<'a, R: FileManager> FrontendCtx<'a, R> {
             AddressedQualifiedValue::Enum(ts_enum_decl, bff_file_name) => {
                 let Some(enum_value) = ts_enum_decl.members.iter().find(|it| match &it.id {
                     TsEnumMemberId::Ident(i) => i.sym == *member,
-                    TsEnumMemberId::Str(_) => unreachable!(),
+                    TsEnumMemberId::Str(s) => s.value.to_string_lossy() == *member,
                 }) else {
                     return self.error(anchor, DiagnosticInfoMessage::EnumMemberNotFound);
                 };
